@@ -62,7 +62,7 @@ class Capacity(O.Monitor):
             self.k += 1
             if e[0] != "admission":
                 continue
-            _, t, nid, ind, pop_node, pop_sys, at_exit, rectype = e
+            _, t, nid, ind, pop_node, pop_sys, at_exit, rectype = e[:8]
             cap = self.caps[nid - 1]
             if cap is None:
                 continue
